@@ -279,8 +279,9 @@ def playback(scratch, unit, harness, log_dir):
             s = s[:k] + '\n' + test_src + '\n}\n'
             open(p2, 'w').write(s)
             break
-    cmd2 = ['cargo', 'kani', 'playback', '-p', unit.crate, '--target-dir', TARGET_DIR, '-Z', 'concrete-playback',
-            '--test', tn.group(1)]
+    cmd2 = ['cargo', 'kani', 'playback', '-p', unit.crate, '-Z', 'concrete-playback', '--', tn.group(1)]
+    env = dict(env)
+    env['CARGO_TARGET_DIR'] = TARGET_DIR + '-playback'
     try:
         q = subprocess.run(cmd2, cwd=scratch.dir, capture_output=True, text=True, env=env, timeout=1800)
         o2 = q.stdout + q.stderr
@@ -288,6 +289,7 @@ def playback(scratch, unit, harness, log_dir):
         mt = re.search(r'test result: (\w+)\. (\d+) passed; (\d+) failed', o2)
         if mt and int(mt.group(3)) > 0:
             pm = re.search(r"panicked at (.*?)\n(.*?)\n", o2)
+            res['native_failed'] = True
             res['native'] = 'FAILED natively: ' + (pm.group(0).strip() if pm else 'test failed')
         elif mt:
             res['native'] = 'native replay passed (counterexample not reproduced natively)'
